@@ -32,10 +32,10 @@ def split_runs(recs):
     return runs
 
 
-def validate(ctx, recs, name, timeout, negative=False):
+def validate(ctx, recs, name, timeout, negative=False, hint=None):
     """accept with the smallest set of open deviations; anything else is a violation"""
     tr = ctx.write_ndjson(name + ".ndjson", recs)
-    od = ctx.open_devs()
+    od = sorted(ctx.open_devs(), key=lambda d: d != hint)      # the scenario's own deviation first
     tries = [()] + [(d,) for d in od] + ([tuple(od)] if len(od) > 1 else [])
     best = None
     for devs in tries:
@@ -67,11 +67,16 @@ def validate(ctx, recs, name, timeout, negative=False):
 def neg_control(ctx, recs, name, devs, timeout):
     """binding control: a Pub event with a foreign value must be rejected exactly there; a dropped
     successful Pub must be rejected somewhere"""
-    idx = [i for i, r in enumerate(recs) if r["ev"] == "Pub" and r["ok"]]
-    if not idx:
+    # use only a few runs around a successful Pub in the middle of the trace (cheap)
+    runs = split_runs(recs)
+    mid = [k for k, run in enumerate(runs) if any(r["ev"] == "Pub" and r["ok"] for r in run)]
+    if not mid:
         ctx.broken("negative control: no successful Pub event in " + name)
         return
-    i = idx[len(idx) // 2]
+    k = mid[len(mid) // 2]
+    recs = [r for run in runs[max(0, k - 2):k + 1] for r in run]
+    idx = [i for i, r in enumerate(recs) if r["ev"] == "Pub" and r["ok"]]
+    i = idx[-1]
     bad = [dict(r) for r in recs]
     bad[i]["v"] = 5 if bad[i]["v"] != 5 else 4
     r3 = ctx.tlc_trace(SPEC, "TraceRepublisher.tla", "TraceRepublisher.cfg",
@@ -79,7 +84,9 @@ def neg_control(ctx, recs, name, devs, timeout):
     if r3["accepted"] or r3["hwm"] != i:
         ctx.broken("negative control (corrupted Pub value) for %s not rejected where expected: accepted=%s hwm=%s want=%s"
                    % (name, r3["accepted"], r3["hwm"], i))
-    # drop a successful Pub that is followed by a WaitRet ok of a waiter it released
+    if ctx.quick:
+        return
+    # drop the successful Pub
     bad2 = recs[:i] + recs[i + 1:]
     r4 = ctx.tlc_trace(SPEC, "TraceRepublisher.tla", "TraceRepublisher.cfg",
                        ctx.write_ndjson(name + "_neg2.ndjson", bad2), timeout=timeout, devs=())
@@ -106,25 +113,27 @@ def run(ctx):
                        "random gate commands and sleeps), each validated by TraceRepublisher. non-trivial = run with >= 2 "
                        "successful publishes or a failed publish followed by a success")
     q = ctx.quick
-    # ---- M: ideal spec, safety
-    ctx.tlc_mc(SPEC, "Republisher.tla", "MCRepublisher.cfg", timeout=1500, coverage=not q,
-               allow_zero=("DevLoopRecvUpdDup", "UpdDrain", "UpdPut", "UpdDrop", "WaitTimeout", "CloseTimeout", "CloseOnceWait"))
+    unused = ("DevLoopRecvUpdDup", "UpdDrain", "UpdPut", "UpdDrop", "WaitTimeout", "CloseTimeout", "CloseOnceWait")
+    # ---- M: ideal spec, safety (quick: 2 values, 2 updates, 1 failure; thorough: 3 values / 3 updates / 2 failures)
+    ctx.tlc_mc(SPEC, "Republisher.tla", "MCRepublisher.cfg", timeout=1800, coverage=not q, allow_zero=unused)
     if not q:
-        ctx.tlc_mc(SPEC, "Republisher.tla", "MCRepublisherV3.cfg", timeout=2400)
-        ctx.tlc_mc(SPEC, "Republisher.tla", "MCRepublisherU3.cfg", timeout=3600)
+        for cfg in ("MCRepublisherF2.cfg", "MCRepublisherV3.cfg", "MCRepublisherU3.cfg"):
+            ctx.tlc_mc(SPEC, "Republisher.tla", cfg, timeout=3600)
     # ---- M: liveness of the ideal spec
-    ctx.tlc_mc(SPEC, "Republisher.tla", "MCRepublisherLive.cfg", timeout=1500)
-    # ---- M: as built: remaining invariants hold, and the deviations are what breaks the properties
-    ctx.tlc_mc(SPEC, "Republisher.tla", "MCRepublisherAsBuilt.cfg", timeout=1500)
-    for cfg, want in (("MCRepublisherDev1.cfg", "NotStuck"), ("MCRepublisherDev2.cfg", "WaitPubCovers")) + \
-            (() if q else (("MCRepublisherDev2Close.cfg", "ClosePublishesPending"), ("MCRepublisherLiveDev1.cfg", "Temporal"))):
-        r = ctx.tlc_mc(SPEC, "Republisher.tla", cfg, timeout=1500, expect_violation=want)
-        if not (r["violated"] and want in r["violated"]):
-            ctx.broken("model sensitivity: %s should violate %s but gave %s" % (cfg, want, r["violated"]))
+    ctx.tlc_mc(SPEC, "Republisher.tla", "MCRepublisherLive.cfg", timeout=1800)
+    # ---- M (thorough): as built: the remaining invariants hold, and each deviation is what breaks its property
+    if not q:
+        ctx.tlc_mc(SPEC, "Republisher.tla", "MCRepublisherAsBuilt.cfg", timeout=1800)
+        for cfg, want in (("MCRepublisherDev1.cfg", "NotStuck"), ("MCRepublisherDev2.cfg", "WaitPubCovers"),
+                          ("MCRepublisherDev2Close.cfg", "ClosePublishesPending"), ("MCRepublisherLiveDev1.cfg", "Temporal")):
+            r = ctx.tlc_mc(SPEC, "Republisher.tla", cfg, timeout=1800, expect_violation=want)
+            if not (r["violated"] and want in r["violated"]):
+                ctx.broken("model sensitivity: %s should violate %s but gave %s" % (cfg, want, r["violated"]))
     ctx.cov["exhaustive"] = True
     # ---- T
     binp = ctx.go_build(PKG, ["mfs/zz_verif_C21_test.go"])
-    for scen, to in (("dev1", 300), ("stress", 900), ("random", 1500)):
+    hints = dict(dev1="Dev_C21_IpStaysDisabled", stress="Dev_C21_UpdateNotAtomic")
+    for scen, to in (("dev1", 600), ("stress", 1200), ("random", 2400)):
         recs, out, rc = ctx.go_run(binp, TEST, pkg=PKG, mode="record", env={"C21_SCEN": scen}, timeout=600)
         if rc != 0 or not recs:
             ctx.broken("record driver (%s) died: rc=%s %s" % (scen, rc, out[-1500:]))
@@ -132,4 +141,4 @@ def run(ctx):
         nontrivial_runs(ctx, recs, scen)
         if scen == "dev1":
             ctx.sample(recs[:40])
-        validate(ctx, recs, scen, to, negative=(scen == "random"))
+        validate(ctx, recs, scen, to, negative=(scen == "random"), hint=hints.get(scen))
